@@ -320,6 +320,36 @@ pub fn soft_count() -> usize {
     with(|c| c.soft.len())
 }
 
+thread_local! {
+    /// id of the property whose check is running (clauses of other properties are not reported by it)
+    static OWN: RefCell<String> = const { RefCell::new(String::new()) };
+}
+
+pub fn set_own(id: &str) {
+    OWN.with(|o| *o.borrow_mut() = id.to_string());
+}
+
+/// A clause "Cxx/..." belongs to property Cxx; untagged clauses (panics, harness) belong to whoever runs.
+pub fn foreign_clause(own: &str, clause: &str) -> bool {
+    if let Some((p, _)) = clause.split_once('/') {
+        let is_prop = p.len() >= 3 && p.starts_with('C') && p[1..].chars().all(|c| c.is_ascii_digit());
+        return is_prop && p != own;
+    }
+    false
+}
+
+/// Is this clause one that the running check does not report (it belongs to another property)?
+pub fn clause_is_foreign(clause: &str) -> bool {
+    OWN.with(|o| foreign_clause(&o.borrow(), clause))
+}
+
+/// Soft violations that the running check will report. A scenario shared between checks must not stop evaluating its
+/// own oracles because a clause of another property fired.
+pub fn soft_count_own() -> usize {
+    let own = OWN.with(|o| o.borrow().clone());
+    with(|c| c.soft.iter().filter(|v| !foreign_clause(&own, &v.clause)).count())
+}
+
 /// Set a human-readable sample of what this run did (kept for a few runs in evidence).
 pub fn set_sample(f: impl FnOnce() -> String) {
     let s = f();
